@@ -37,6 +37,14 @@ Fixpoint rle_from (x c : Z) (l : list Z) : list (list Z) :=
   end.
 Definition rle (l : list Z) : list (list Z) := match l with [] => [] | x :: t => rle_from x 1 t end.
 
+(* a huge string in compact form: pattern P repeated n times, then the tail T *)
+Definition big_len (P : list Z) (n : Z) (T : list Z) : Z := zlen P * n + zlen T.
+Definition big_byte (P : list Z) (n : Z) (T : list Z) (j : Z) : Z :=
+  if j <? zlen P * n then nth (Z.to_nat (j mod zlen P)) P 0 else nth (Z.to_nat (j - zlen P * n)) T 0.
+(* the at most 8 bytes starting at byte p *)
+Definition big_window (P : list Z) (n : Z) (T : list Z) (p : Z) : list Z :=
+  map (fun d => big_byte P n T (p + Z.of_nat d)) (seq 0 (Z.to_nat (Z.min 8 (big_len P n T - p)))).
+
 Definition ops_C11 : list opdef := [
   {| op_name := "bitmap.FromStr32";
      op_run := fun a => match a with
@@ -198,6 +206,49 @@ Definition ops_C11 : list opdef := [
                    VL [vzss (rle (spec_PathsOf keys1 from h dd)); vzss (rle (spec_PathsOf keys2 from h dd))]
                | _, _ => VBad end
            | _, _, _, _, _, _ => VBad end
+       | _ => VBad end) |};
+  (* session: r1 := PathsOf(keys1, dedup=true); r2 := PathsOf(keys2, dd2); the caller appends junk to r1;
+     then both are rendered.  A result must not share memory with a later result, not even in its spare capacity. *)
+  {| op_name := "bmtree.PathsOf/append";
+     op_run := fun a => match a with
+       | [keys1; keys2; from; h; dd2; junk] =>
+           match as_zss keys1, as_zss keys2, as_z from, as_z h, as_bool dd2, as_zs junk with
+           | Some keys1, Some keys2, Some from, Some h, Some dd2, Some junk =>
+               if c11_domk keys1 from h && c11_domk keys2 from h && forallb bytes_okb keys1 && forallb bytes_okb keys2 then
+                 match PathsOf keys1 from h true, PathsOf keys2 from h dd2 with
+                 | Some p1, Some p2 => VL [vzs (p1 ++ junk); vzs p2]
+                 | _, _ => VPanic end
+               else VBad
+           | _, _, _, _, _, _ => VBad end
+       | _ => VBad end;
+     op_spec := fun_spec (fun a => match a with
+       | [keys1; keys2; from; h; dd2; junk] =>
+           match as_zss keys1, as_zss keys2, as_z from, as_z h, as_bool dd2, as_zs junk with
+           | Some keys1, Some keys2, Some from, Some h, Some dd2, Some junk =>
+               VL [vzs (spec_PathsOf keys1 from h true ++ junk); vzs (spec_PathsOf keys2 from h dd2)]
+           | _, _, _, _, _, _ => VBad end
+       | _ => VBad end) |};
+  (* FromStr32 on a huge string P^n ++ T (tens of MB on the Go side).  The model and the spec are run on the
+     at most 8 bytes under the window, with the window shifted: theorem C11_FromStr32_local says that is the same. *)
+  {| op_name := "bitmap.FromStr32/big";
+     op_run := fun a => match a with
+       | [P; n; T; from; w] => match as_zs P, as_z n, as_zs T, as_z from, as_z w with
+           | Some P, Some n, Some T, Some from, Some w =>
+               if c11_dom from w && bytes_okb P && bytes_okb T && (0 <=? n) && ((1 <=? zlen P) || (n =? 0)) &&
+                  (8 * big_len P n T <? 2^31) then
+                 let p := Z.min (from / 8) (big_len P n T) in
+                 let f := from - 8 * p in
+                 match FromStr32 (big_window P n T p) f (f + w) with
+                 | Some (k, v) => VL [VZ k; VZ v] | None => VPanic end
+               else VBad
+           | _, _, _, _, _ => VBad end
+       | _ => VBad end;
+     op_spec := fun_spec (fun a => match a with
+       | [P; n; T; from; w] => match as_zs P, as_z n, as_zs T, as_z from, as_z w with
+           | Some P, Some n, Some T, Some from, Some w =>
+               let p := Z.min (from / 8) (big_len P n T) in
+               let r := spec_FromStr32 (big_window P n T p) (from - 8 * p) w in VL [VZ (fst r); VZ (snd r)]
+           | _, _, _, _, _ => VBad end
        | _ => VBad end) |};
   (* FromStr32 over [from,from+w1), [from+w1,from+w1+w2) and [from,from+w1+w2): the three
      results, judged by the functional spec and by the composition relation *)
